@@ -265,7 +265,8 @@ theorem exception_revert_reason_unreverted (r : Receipt) (reason : Bytes) (hr : 
 /-- `L1DAMode` enters the hash only as `mode == Blob`: all other values are "calldata". -/
 theorem exception_l1DAMode_only_blob_bit (t e s : UInt64) (d : Nat) (hd : d ≠ 1) :
     concatCounts t e s d = concatCounts t e s 0 := by
-  simp [concatCounts, hd]
+  unfold concatCounts
+  rw [if_neg hd, if_neg (by decide : ¬ (0 : Nat) = 1)]
 
 /-- Only the low 128 bits of a resource bound's price are hashed. -/
 theorem exception_price_high_bits (name : String) (a : UInt64) (p q : Nat) (h : q = p + 2 ^ 128) :
@@ -314,19 +315,50 @@ theorem exception_l1handler_without_nonce_unverified (chain : Term) (l : L1Handl
     (hn : l.nonce = none) : txHash chain (.l1Handler l) = some l.hash := by
   simp [txHash, l1HandlerHash, hv, hn]
 
-/-- DEFECT WITNESS (negation of the full-strength `tx_tamper_rejected`): take any Declare transaction
-that verifies; set its version to 0 and change its class hash: `VerifyTransactions` still passes —
-for a block of any protocol version — and the commitment leaf is unchanged, so the block hash is too. -/
-theorem declare_v0_tamper_accepted :
+/-- DEFECT WITNESS (negation of the full-strength `tx_tamper_rejected`), for the code as it is
+(`strictTxKinds = false`): take any Declare transaction that verifies; set its version to 0 and
+change its class hash: `VerifyTransactions` still passes — in a block of protocol 0.14.0 — and the
+commitment leaf is unchanged, so the block hash is too. -/
+theorem declare_v0_tamper_accepted : strictTxKinds = false →
     ∃ (chain : Term) (d d' : DeclareTx),
       verifyTransactions chain [.declare d] (asciiBytes "0.14.0") = true ∧
       verifyTransactions chain [.declare d'] (asciiBytes "0.14.0") = true ∧
       d'.hash = d.hash ∧ d'.classHash ≠ d.classHash ∧ d'.version ≠ d.version ∧
       txLeaf0134 (.declare d') = txLeaf0134 (.declare d) := by
-  let d0 : DeclareTx := { (default : DeclareTx) with version := 2, classHash := .felt 5, compiledClassHash := .felt 6 }
-  let h := (declareHash (.felt 1) d0).getD (.felt 0)
-  exact ⟨.felt 1, { d0 with hash := some h }, { d0 with hash := some h, version := 0, classHash := .felt 77 },
-    by decide, by decide, rfl, by decide, by decide, by decide⟩
+  first
+  | (intro h; exact absurd h (by decide))
+  | (intro _
+     let d0 : DeclareTx := { (default : DeclareTx) with version := 2, classHash := .felt 5, compiledClassHash := .felt 6 }
+     let h := (declareHash (.felt 1) d0).getD (.felt 0)
+     exact ⟨.felt 1, { d0 with hash := some h }, { d0 with hash := some h, version := 0, classHash := .felt 77 },
+       by decide, by decide, rfl, by decide, by decide, by decide⟩)
+
+/-- The same for an L1-handler transaction whose nonce is dropped. -/
+theorem l1handler_nonce_drop_accepted : strictTxKinds = false →
+    ∃ (chain : Term) (l l' : L1HandlerTx),
+      verifyTransactions chain [.l1Handler l] (asciiBytes "0.14.0") = true ∧
+      verifyTransactions chain [.l1Handler l'] (asciiBytes "0.14.0") = true ∧
+      l'.hash = l.hash ∧ l'.callData ≠ l.callData ∧
+      txLeaf0134 (.l1Handler l') = txLeaf0134 (.l1Handler l) := by
+  first
+  | (intro h; exact absurd h (by decide))
+  | (intro _
+     let l0 : L1HandlerTx := { (default : L1HandlerTx) with nonce := some (.felt 3), callData := [.felt 1] }
+     let h := (l1HandlerHash (.felt 1) l0).getD (.felt 0)
+     exact ⟨.felt 1, { l0 with hash := h }, { l0 with hash := h, nonce := none, callData := [.felt 1, .felt 2] },
+       by decide, by decide, rfl, by decide, by decide⟩)
+
+/-- With the proposed repair (`strictTxKinds = true`) both are rejected from 0.13.2 on, whatever
+hash they declare. -/
+theorem unverifiable_kinds_rejected_when_strict (chain : Term) (t : Tx) (version : Bytes) (v : Ver)
+    (hs : strictTxKinds = true) (hp : parseVersion version = some v) (hv : v.ge v0_13_2 = true)
+    (hk : recomputable t = false) : verifyTransactions chain [t] version = false := by
+  have h11 : v.lt v0_11_0 = false := by
+    obtain ⟨a, b, c⟩ := v
+    simp only [Ver.lt, Ver.ge, v0_13_2, v0_11_0] at *
+    simp at *
+    omega
+  simp [verifyTransactions, hp, h11, hs, hv, hk]
 
 /-! ## Non-vacuity: the hypotheses above are satisfiable -/
 
